@@ -17,7 +17,7 @@ EXTENDS Integers, Sequences, FiniteSets
 
 Range(f) == {f[i] : i \in DOMAIN f}
 
-MInit == [incp |-> FALSE, paused |-> {}, unreached |-> {}, ex |-> {}, dl |-> {},
+MInit == [incp |-> FALSE, paused |-> {}, inloop |-> FALSE, ex |-> {}, dl |-> {},
           q |-> {}, bad |-> {}]
 
 Flag(c, name) == IF c THEN {name} ELSE {}
@@ -25,14 +25,13 @@ Flag(c, name) == IF c THEN {name} ELSE {}
 MStep(m, e) ==
     CASE e.ev = "cp_enter" -> [m EXCEPT !.incp = TRUE]
       [] e.ev = "cp_leave" ->
-           [m EXCEPT !.incp = FALSE,
+           [m EXCEPT !.incp = FALSE, !.inloop = FALSE,
                      !.bad = @ \cup Flag(m.paused # {}, "PauseHolds")]
       [] e.ev = "prim" /\ e.k = "step" ->
            [m EXCEPT !.bad = @ \cup Flag(m.paused # {}, "PauseHolds")]
-      [] e.ev = "prim" /\ e.k = "test_pause" /\ e.obj = "yes" ->
-           [m EXCEPT !.unreached = {}]
+      [] e.ev = "prim" /\ e.k = "test_pause" ->
+           [m EXCEPT !.inloop = (e.obj = "yes")]
       [] e.ev = "call" /\ e.k = "Q" -> [m EXCEPT !.q = @ \cup {e.id}]
-      [] e.ev = "call" /\ e.k = "P" -> [m EXCEPT !.unreached = @ \cup {e.th}]
       [] e.ev = "exec" ->
            [m EXCEPT !.ex = @ \cup {e.id},
                      !.bad = @ \cup Flag(~m.incp \/ e.th # "S", "ExecAtControlPoint")
@@ -45,7 +44,7 @@ MStep(m, e) ==
                                \cup Flag(e.id \in m.dl, "DeliveredTwice")]
       [] e.ev = "ret" /\ e.k = "W" ->
            [m EXCEPT !.paused = @ \cup {e.th},
-                     !.bad = @ \cup Flag(~m.incp \/ e.th \in m.unreached,
+                     !.bad = @ \cup Flag(~m.incp \/ ~m.inloop,
                                          "WaitNotEarly")]
       [] e.ev = "call" /\ e.k = "C" -> [m EXCEPT !.paused = @ \ {e.th}]
       [] OTHER -> m
